@@ -406,8 +406,8 @@ impl Keys {
 	fn src(&self, key: &str) -> Option<String> {
 		let mut it = key.split(':');
 		match it.next()? {
-			"prev" => { let c = self.chans.iter().position(|n| n == it.next().unwrap_or(""))?; Some(format!("p{}.{}", c, it.next()?)) },
-			"route" => { let p = self.pays.iter().position(|n| n == it.next().unwrap_or(""))?; let k = self.privs.iter().position(|n| n == it.next().unwrap_or(""))?; Some(format!("r{}.{}", p, k)) },
+			"prev" => { let a = it.next()?; let c = self.chans.iter().position(|n| n == a)?; Some(format!("p{}.{}", c, it.next()?)) },
+			"route" => { let a = it.next()?; let b = it.next()?; let p = self.pays.iter().position(|n| n == a)?; let k = self.privs.iter().position(|n| n == b)?; Some(format!("r{}.{}", p, k)) },
 			_ => None,
 		}
 	}
@@ -659,7 +659,7 @@ fn main() {
 					let any_cl = decisions.iter().any(|l| l.starts_with("claim ")); let any_fl = decisions.iter().any(|l| l.starts_with("fail "));
 					rec.case(&op2, &ans, &format!("recon:{}{}{}", if any_cl { "claims" } else { "no-claim" }, if any_fl { "+fails" } else { "" }, if chans.iter().any(|c| c.0) { "+stale-closed" } else { "" }), any_cl || any_fl || !post_pays.is_empty());
 					if trace_on { eprintln!("    {} => {}", op2, ans); }
-				} else { rec.discarded += 1; }
+				} else { rec.discarded += 1; if trace_on { eprintln!("    recon NOT COVERED pays_q={:?} post={:?} ex={:?} chan={:?} keys={:?}/{:?}", q0.pays, post_pays, ex, q0.extras.iter().map(|e| &e.chan_htlcs).collect::<Vec<_>>(), keys.pays, keys.privs); } }
 				// wake-up events of every RESUMED channel
 				for &k in &open_q { if !chans[k].0 {
 					let c = qv[k].chan.unwrap(); let hexid = format!("{}", my[k].2);
